@@ -8,7 +8,7 @@ use vh::{json, Cli, Report, Rng};
 fn main() {
     let cli = Cli::parse();
     let mut rep = Report::new("C04", &cli);
-    rep.note("rule", json!("case = Sort / VisualSort / BatchSort / BatchVisualSort (both positional metrics, shards 1..4; for the batch kinds the interleaving is a batch holding several scenes and the projection feeds one scene per batch) x interleaved history of 30..90 predict calls over 2..4 scenes; in 60% of the cases the scenes' objects occupy exactly the same image coordinates; in ~3% of the cases a further scene of the same tracker holds 1200..1600 tracks (created before the history, never touched again) while the history's own scenes are crowded (14..16 objects). Monitors: (1) lifecycle model: no record may continue a track of another scene; (2) differential: for every scene the projection of the history onto that scene is replayed on a fresh tracker and the interleaved run's records for that scene must equal it call by call - same grouping up to an id bijection built incrementally, and bit-identical boxes, epochs, lengths, custom ids. A grouping difference is handed to the explain-divergence oracle (C02 / C12 references on both runs' own pre-call states): it is a violation unless both outcomes are valid optimal associations (then it is counted as a tie divergence); a difference in numbers with equal grouping is always a violation. Non-trivial: scene projections with >= 2 calls in which another scene's call lies between two calls of this scene; distinct by (history, scene)."));
+    rep.note("rule", json!("case = Sort / VisualSort / BatchSort / BatchVisualSort (both positional metrics, shards 1..4; for the batch kinds the interleaving is a batch holding several scenes and the projection feeds one scene per batch) x interleaved history of 30..90 predict calls over 2..4 scenes; in 60% of the cases the scenes' objects occupy exactly the same image coordinates; a third of the histories also contain skip_epochs calls for single scenes (scene 0 is addressed through the scene-less API variants in half of the tracker configurations); in ~3% of the cases a further scene of the same tracker holds 1200..1600 tracks (created before the history, never touched again) while the history's own scenes are crowded (14..16 objects). Monitors: (1) lifecycle model: no record may continue a track of another scene; (2) differential: for every scene the projection of the history onto that scene is replayed on a fresh tracker and the interleaved run's records for that scene must equal it call by call - same grouping up to an id bijection built incrementally, and bit-identical boxes, epochs, lengths, custom ids. A grouping difference is handed to the explain-divergence oracle (C02 / C12 references on both runs' own pre-call states): it is a violation unless both outcomes are valid optimal associations (then it is counted as a tie divergence); a difference in numbers with equal grouping is always a violation. Non-trivial: scene projections with >= 2 calls in which another scene's call lies between two calls of this scene; distinct by (history, scene)."));
     rep.note("assumptions", json!(["histories contain no bit-identical detections within a call"]));
     let n = cli.cases(640, 5000);
     for idx in cli.index_range(n) {
@@ -43,7 +43,10 @@ fn main() {
             low_conf: false,
             vary_nobj: leak_prone || rng.chance(0.3),
         };
-        let h = HistOpts { len: if cli.small { 8 } else if heavy { 10 + rng.usize(7) } else { 30 + rng.usize(61) }, lifecycle_ops: false, clear_wasted: false, auto_waste_ops: false, batches: kind.is_batch(), empty_calls: true };
+        // a third of the histories also skip epochs of single scenes (scene 0 through the scene-less call when the tracker
+        // configuration says so): a skip belongs to its scene's projection and must not touch any other scene
+        let with_skips = !heavy && rng.chance(0.35);
+        let h = HistOpts { len: if cli.small { 8 } else if heavy { 10 + rng.usize(7) } else { 30 + rng.usize(61) }, lifecycle_ops: with_skips, clear_wasted: false, auto_waste_ops: false, batches: kind.is_batch(), empty_calls: true };
         let ops = gen_history(&mut rng, &w, &h);
         rep.eval();
         // interleaved run with pre-call snapshots
@@ -75,11 +78,14 @@ fn main() {
             pre: Vec<LiveTrack>,
             epoch: usize,
             pos: usize,
+            /// Some(n): this entry is a skip of n epochs for `scene`, not a predict call
+            skip: Option<usize>,
         }
         let mut log: Vec<CallLog> = vec![];
         let mut bad = false;
         // batch kinds: the interleaving is a batch holding several scenes; the projection feeds one scene per batch
         let mut flat: Vec<(usize, u64, Vec<Det>, Vec<Rec>, Vec<LiveTrack>, usize)> = vec![];
+        let mut skips: Vec<(usize, u64, usize)> = vec![];
         for (ci, op) in ops.iter().enumerate() {
             match op {
                 Op::Predict { scene, dets } => {
@@ -97,10 +103,32 @@ fn main() {
                         flat.push((ci, *s, dets.clone(), recs, pre.clone(), epochs[s]));
                     }
                 }
+                Op::Skip { scene, n } => {
+                    let before: Vec<(u64, usize)> = (0..scenes as u64).map(|s| (s, trk.epoch(s))).collect();
+                    trk.skip_epochs(*scene, *n);
+                    rep.count("skips_in_interleaved_runs");
+                    for (s, e) in before {
+                        let want = if s == *scene { e + *n } else { e };
+                        if trk.epoch(s) != want {
+                            rep.violation(&format!("C04/{:?}/interleaved/skip-changed-epoch-of-scene", kind), idx, json!({"cfg": cfg.js(), "call": ci, "skipped_scene": scene, "n": n, "scene": s, "epoch_before": e, "epoch_after": trk.epoch(s)}));
+                            bad = true;
+                        }
+                    }
+                    skips.push((ci, *scene, *n));
+                }
                 _ => {}
             }
         }
+        let mut skip_it = skips.into_iter().peekable();
         for (ci, scene, dets, recs, pre, epoch) in flat.into_iter().map(|(a, b, c, d, e, f)| (a, b, c, d, e, f)) {
+            while let Some((sci, ss, n)) = skip_it.peek().cloned() {
+                if sci > ci {
+                    break;
+                }
+                life.on_skip(ss, n);
+                log.push(CallLog { scene: ss, dets: vec![], recs: vec![], pre: vec![], epoch: 0, pos: sci, skip: Some(n) });
+                skip_it.next();
+            }
             let (scene, dets) = (&scene, &dets);
             {
                 for (sig, d) in life.on_predict(*scene, dets, &recs, false) {
@@ -114,11 +142,15 @@ fn main() {
                     rep.violation(&format!("C04/{:?}/interleaved-call-invalid/{}", kind, sig), idx, json!({"cfg": cfg.js(), "call": ci, "scene": scene, "detail": d}));
                     bad = true;
                 }
-                log.push(CallLog { scene: *scene, dets: dets.clone(), recs, pre, epoch, pos: ci });
+                log.push(CallLog { scene: *scene, dets: dets.clone(), recs, pre, epoch, pos: ci, skip: None });
                 if bad {
                     break;
                 }
             }
+        }
+        for (sci, ss, n) in skip_it {
+            life.on_skip(ss, n);
+            log.push(CallLog { scene: ss, dets: vec![], recs: vec![], pre: vec![], epoch: 0, pos: sci, skip: Some(n) });
         }
         if bad {
             continue;
@@ -134,6 +166,10 @@ fn main() {
             let mut rev: HashMap<u64, u64> = HashMap::new();
             let interleaved_between = calls.windows(2).any(|w| w[1].pos > w[0].pos + 1) || (kind.is_batch() && scenes >= 2);
             for (k, c) in calls.iter().enumerate() {
+                if let Some(n) = c.skip {
+                    solo.skip_epochs(s, n);
+                    continue;
+                }
                 let pre_solo = solo.live();
                 let recs_solo = solo.predict(s, &c.dets);
                 rep.count("projected_calls_compared");
